@@ -240,6 +240,10 @@ Proof.
   - destruct (alook v (l_lv st)) as [r|] eqn:Ev; inversion H; subst. exists s. cbn.
     split; [reflexivity|]. split; [exact R|]. split; [|auto].
     rewrite Elv in Ev. destruct (r_lv _ _ _ _ R _ _ Ev) as (z & Hz & Hm). rewrite Hz in Ha. inversion Ha; subst. exact Hm.
+  - unfold rf_lookup in H. destruct (alook r (l_rf st)) as [[[] k]|] eqn:Er; try discriminate.
+    + destruct (i_rfM _ I _ _ Er) as [(m & X)|X]; discriminate.
+    + inversion H; subst. exists s. cbn. split; [reflexivity|]. split; [exact R|]. split; [|auto].
+      rewrite Erf in Er. eapply r_rf; eauto.
 Qed.
 
 (* ------------------------------------------------------------------ leaf statements *)
